@@ -94,12 +94,22 @@ def gen_cases(ctx):
                     if others:
                         busy.append({"u": u, "d": d, "v": rng.choice(others), "delay": rng.choice([8, 15, 30, 50]),
                                      "len": rng.choice([0, 8, 24])})
+        stall = None
+        cand = [a for a in relay1 if a and 1 <= net_ref.level(a) <= 3 and str(a) not in mlevel and a not in mc_off]
+        if i % 14 in (5, 11) and cand:
+            # a relay whose application stops reading: its queue fills up (6 frames) and the
+            # following multicasts must still be re-broadcast to the next level
+            stall = rng.choice(cand)
+            senders = [a for a in nodes if a != stall and a not in mc_off]
+            for k in range(9):
+                msgs[k] = {"src": rng.choice(senders), "level": net_ref.level(stall),
+                           "len": rng.choice([4, 8, 24]), "type": 10 + k}
         lazy = [a for a in nodes if i % 4 == 3 and rng.random() < 0.5]
         if lazy:
             for ms in msgs:
                 ms["len"] = max(4, ms["len"])
         yield {"nodes": nodes, "relay": relay1, "mc_off": mc_off, "msgs": msgs, "lazy": lazy,
-               "mlevel": mlevel, "busy": busy,
+               "mlevel": mlevel, "busy": busy, "stall": stall,
                "profiles": {str(a): N.rand_profile(rng, base=base) for a in nodes},
                "seed": rng.getrandbits(30)}
 
@@ -126,6 +136,8 @@ def _run(ctx, case, net):
         nn = net.add("net", a, profile=case["profiles"][str(a)], setup=setup)
         if a in case.get("lazy", []):
             nn.lazy_ns = 40 * W.MS
+        if a == case.get("stall"):
+            nn.lazy_ns = 1 << 60  # reads nothing until the final drain
     # the level a node multicasts on / listens on / relays from is its multicast_level
     level_of = {a: case.get("mlevel", {}).get(str(a), net_ref.level(a)) for a in nodes}
     c07 = {"n": 0}
@@ -294,7 +306,10 @@ def _run(ctx, case, net):
             bad = [a for a in members if copies.get(a, 0) > 1
                    or (net.bykey[a].radio.name in heard and copies.get(a, 0) != 1)]
         else:
-            bad = [a for a in members if copies.get(a, 0) != 1]
+            # a node whose application does not read keeps at most max_queue_size frames: for it
+            # only "never more than one copy" is judged (the bounded queue is C12's subject)
+            st_ = case.get("stall")
+            bad = [a for a in members if (copies.get(a, 0) != 1 if a != st_ else copies.get(a, 0) > 1)]
         if bad:
             ctx.violation("level-member-copies" + mech,
                           "multicast from %s to level %d (%d bytes, arg %r): node %s of that level "
